@@ -159,3 +159,42 @@ Proof.
                   (mkSubmit 7 207 [mkNull KTx 1 207]) oc' (mkNull KTx 1 207) (mkNull KTx 1 207)
                   Hi E (or_introl eq_refl) eq_refl Hm Hc (or_introl eq_refl) eq_refl eq_refl) ok').
 Qed.
+
+(* What a commit changes in the status store. The writes create or replace only entries keyed by a
+   recorded nullification of the committing transaction, in the partition the tracker assigns to its
+   expiry; then either nothing else changes, or the tracker advances by one partition and EXACTLY the
+   recycled partition (the old start partition) is emptied: it has no record left and every record of
+   every other partition is kept (the per-partition record counts are what the correspondence run reads
+   back from the database after every step). *)
+Theorem C07_rotation_deletes_exactly : forall st ne ns ok st',
+  update_tracker st ne ns ok = Some st' ->
+  exists s1, write_nulls (trk st) (store st) ok ns = Some s1 /\
+    ((ne < start_epoch (trk st) + epp (trk st) /\ trk st' = trk st /\ store st' = s1)
+     \/ (start_epoch (trk st) + epp (trk st) <= ne
+         /\ advance (trk st) = Some (trk st', start_partition (trk st))
+         /\ (forall r, In r (store st') <-> In r s1 /\ fst (fst r) <> start_partition (trk st))
+         /\ count_part (store st') (start_partition (trk st)) = 0%nat
+         /\ (forall p, p <> start_partition (trk st) -> count_part (store st') p = count_part s1 p))).
+Proof. exact update_tracker_deletes. Qed.
+
+Theorem C07_writes_only_own_keys : forall t ok ns s s',
+  write_nulls t s ok ns = Some s' ->
+  (forall r, In r s' ->
+     In r s \/ exists n, In n ns /\ recorded ok n = true
+                         /\ partition_for t (n_expiry n) = PSome (fst (fst r)) /\ snd (fst r) = n_hash n)
+  /\ (forall r, In r s ->
+     In r s' \/ exists n, In n ns /\ recorded ok n = true
+                         /\ partition_for t (n_expiry n) = PSome (fst (fst r)) /\ snd (fst r) = n_hash n).
+Proof. exact write_nulls_only_keys. Qed.
+
+(* the Cancelled status is never written: from a store without it no step produces it and
+   IntentHashPreviouslyCancelled is never returned *)
+Theorem C07_never_cancelled : forall st x,
+  NoCancelled (store st) ->
+  NoCancelled (store (snd (do_step st x)))
+  /\ forall k h, fst (do_step st x) <> RReject (PrevCancelled k h).
+Proof. exact no_cancelled_step. Qed.
+
+Print Assumptions C07_rotation_deletes_exactly.
+Print Assumptions C07_writes_only_own_keys.
+Print Assumptions C07_never_cancelled.
